@@ -22,8 +22,13 @@ PLANS = {
         "quick": [("c04_quick", BOTH, session_check.READ_ACTIONS + ["ReaderFault"], None, None, None),
                   ("c04_single", ("delimited",), session_check.READ_ACTIONS, None, None, None),
                   # three fields, the middle one may be empty: the column of a rejected cell behind an empty one
-                  ("c04_three", BOTH, session_check.READ_ACTIONS, None, None, None)],
+                  ("c04_three", BOTH, session_check.READ_ACTIONS, None, None, None),
+                  # one reader object read twice, closed or not in between: the second pass numbers its rows from 1 and
+                  # judges them as the first one does
+                  ("c07_again_h1", ("delimited",), session_check.READ_ACTIONS + ["ReadAgain"], 4000, None, None)],
         "thorough": [("c04_quick", BOTH, session_check.READ_ACTIONS + ["ReaderFault"], None, None, None),
+                     ("c07_again_h0", BOTH, session_check.READ_ACTIONS + ["ReadAgain"], 30000, None, None),
+                     ("c07_again_h1", BOTH, session_check.READ_ACTIONS + ["ReadAgain"], 30000, None, None),
                      ("c04_single", ("delimited",), session_check.READ_ACTIONS, None, None, None),
                      ("c04_three", BOTH, session_check.READ_ACTIONS, None, None, None),
                      ("c04_single_h1", ("delimited",), session_check.READ_ACTIONS, None, None, None),
@@ -49,14 +54,14 @@ PLANS = {
         + [("c05_uu", BOTH, session_check.READ_ACTIONS, None, None, None)],
     },
     "C06": {
-        "quick": [("c06_reader", ("delimited",), session_check.READ_ACTIONS + ["ReaderFault"], None, None, None),
+        "quick": [("c06_reader", ("delimited", "delimited+skip"), session_check.READ_ACTIONS + ["ReaderFault"], None, None, None),
                   ("c04_h0", ("fixed",), session_check.READ_ACTIONS + ["ReaderFault"], None, None, None),
                   # the modes also agree when only a prefix of the rows is validated
                   ("c07_h1", ("delimited",), session_check.READ_ACTIONS, None, None, None),
                   # ... and for readers that were created before other readers of the CID were read (one reader per mode)
                   ("c08_park2", ("delimited",), RW + ["Park", "Resume"], 3000, None, None)],
-        "thorough": [("c07_h1_t5", BOTH, session_check.READ_ACTIONS, None, None, None), ("c06_reader", BOTH, session_check.READ_ACTIONS + ["ReaderFault"], None, None, None),
-                     ("c06_reader_h0", BOTH, session_check.READ_ACTIONS + ["ReaderFault"], None, None, None),
+        "thorough": [("c07_h1_t5", BOTH, session_check.READ_ACTIONS, None, None, None), ("c06_reader", BOTH + ("delimited+skip",), session_check.READ_ACTIONS + ["ReaderFault"], None, None, None),
+                     ("c06_reader_h0", BOTH + ("delimited+skip",), session_check.READ_ACTIONS + ["ReaderFault"], None, None, None),
                      ("c04_quick", BOTH, session_check.READ_ACTIONS + ["ReaderFault"], None, None, None),
                      ("c04_h0", BOTH, session_check.READ_ACTIONS + ["ReaderFault"], None, None, None),
                      ("c04_t4", ("delimited",), session_check.READ_ACTIONS, None, None, None)],
@@ -117,7 +122,7 @@ ASSUMPTIONS = [
     "abstract cells are concretised as Integer fields 0...99 with text cells '1', '2', ...; a rejected cell is 'x<n>'; "
     "IsUnique keys are compared as cell text over alphabets where text equality and value equality coincide",
     "the place where a malformed container is reported (DataFormatError location) is not compared: no listed property speaks about it",
-    "container faults are concretised as a stray character after a closing quote (delimited) or a truncated record (fixed)",
+    "container faults are concretised as a stray character after a closing quote or a quote that is never closed (delimited, with and without skip initial space) or a truncated record (fixed)",
 ]
 
 
